@@ -17,10 +17,39 @@ byte budget for the chunk files swept over every chunk-size boundary
 (openmp), wh numpy, dict_wh} x n_jobs x chunk sizes — the configuration
 (n_jobs, n_outcomes_per_job, events_per_temporary_file incl. the single-chunk
 value) is drawn anew for EVERY task; verbose=True for a quarter of the tasks;
-every call in a killable worker with a deadline. Predicted by the stage table
-below + the Lean driver (storage: encodedSize of every chunk vs. the budget):
-`Raised` — never `Returned`, never `Timeout`. The same task without the fault
-must return (non-vacuity).
+every call in a killable worker with a deadline.
+WHERE THE EXPECTATION COMES FROM.  Fault kinds the Lean MODEL knows — a repeated
+cue under the default policy (dup_cue), a cue / outcome without a vector
+(no_vector), no fault at all, and the argument / input faults of stream
+`model_faults`: events_per_temporary_file >= 2^32 and = 1, an event file with
+ZERO events, n_outcomes_per_job = 0 and >= 2^32 — are predicted by the driver op
+`conversion_faults`, which runs the learner model of the task's learner
+(`dictNdl`, `ndlCall`, `whModel`, `whNumpyModel`, `dictWhModel`) on the task's
+events and configuration and returns `Returned` or the exception CLASS; for these
+kinds a class that differs from the model's is a violation, and so is a
+`Returned` where the model raises (and vice versa).  For the learners that write
+chunk files the same op evaluates the conversion model: the failing-job oracle
+of the event file (`failingJob`, C05 failing_job_iff) and the submit loop
+`simulateF` run with it under a random completion-delay oracle (C05
+conversion_dup_raises / conversion_overflow_raises / conversion_no_fault):
+`sim_raises` must imply that the real call raises.  (whModel has no
+events_per_temporary_file: the chunk-size faults are generated for ndl.ndl
+only.)  Storage budgets: op `storage_fault` — the theorem-backed `encodedSize`
+of every conversion job's window (C06 encoded_size / C05 storage_need) against
+the budget.  The OTHER kinds have NO MODEL and keep the stage table EXPECT
+below: malformed lines, truncated gzip, unusable parameter TYPES (the model's
+scalars are numbers; a failing worker exists only as the nondeterministic
+`.fail` action of the queue model), a generator that raises or yields a
+malformed event; there only `Raised` — never `Returned`, never `Timeout` — is
+required and a differing class is counted, not reported.  The same task without
+the fault must return (non-vacuity).
+Stream `worker_fault_trace` — the queue model WITH failures (`qRun` / `qFinal` /
+`qRaises`, C05 worker_fault_raises / worker_runs_bounded): ndl.ndl
+(method='threading') under an unusable alpha / beta / lambda (and without a
+fault) runs with the logging work queue of C02 (harness/impl_sched.py); a kernel
+call that raises is the action `fail`.  The observed history must be accepted
+by the Lean transition system, be final, stay within 2*parts+threads steps, and
+`qRaises` of the final state must say whether the real call raised.
 Not faults (so not generated as such): a value the learner never needs
 (dict_ndl reads beta2 only when an event lacks an outcome seen before: the
 expectation is computed per task by `beta2_needed`), eta=[0.5] for the numpy
@@ -53,6 +82,39 @@ EXPECT = {
     'gen_raises': lambda l: 'Raised:Other',           # the generator's own RuntimeError
     'gen_bad_event': lambda l: 'Raised:Value',        # events_to_file / the unpacking of the event
 }
+
+
+# fault kinds whose expectation is the learner model's (driver op conversion_faults); every other kind: EXPECT
+MODEL_KINDS = ('none', 'dup_cue', 'no_vector', 'per_file_overflow', 'per_file_one', 'zero_events', 'per_job_zero',
+               'per_job_overflow')
+_LEARNER_TABLES = {'wh_r2r': ('cue', 'outcome'), 'wh_b2r': ('outcome',), 'wh_r2b': ('cue',), 'wh_numpy': ('cue', 'outcome'),
+                   'dict_wh': ('cue', 'outcome')}
+
+
+def _fault_table(names, n_dims, prefix):
+    """the vector table impl_fault._table builds for these names (entries ((3i + j) % 5 - 2) / 2), as a driver table"""
+    return {'names': list(names), 'dims': ['%s%d' % (prefix, j) for j in range(n_dims)],
+            'rows': [['%d/2' % ((i * 3 + j) % 5 - 2) for j in range(n_dims)] for i in range(len(names))]}
+
+
+def model_request(t, r=None):
+    """driver op conversion_faults for a task whose fault kind the model knows: the learner, the events as the
+    file reads them back, the configuration and (wh) the vector tables impl_fault hands to the real call"""
+    f = t['fault'] or {'kind': 'none'}
+    events = [[list(c), list(o) if o else ['']] for c, o in t['events']]
+    q = {'op': 'conversion_faults', 'learner': t['learner'], 'events': events, 'policy': t.get('policy', 'error'),
+         'per_file': int(t.get('per_file', 10000000)), 'per_job': 0 if f['kind'] == 'per_job_zero' else int(t.get('per_job', 10)),
+         'burst': 4 * int(t.get('n_jobs', 2))}
+    if r is not None:
+        # a completion-delay oracle for the submit loop (ticks job 0, 1, … needs): any order must raise / not raise alike
+        q['delays'] = [r.choice([0, 0, 1, 3, 9]) for _ in range(len(events) + 2)]
+    names = t.get('table_names') or {'cue': sorted({c for cs, _ in events for c in cs}),
+                                      'outcome': sorted({o for _, os_ in events for o in os_})}
+    for side in _LEARNER_TABLES.get(t['learner'], ()):
+        ns = [x for x in names[side] if not (f['kind'] == 'no_vector' and f['side'] == side and x == f['name'])]
+        q['cue_vectors' if side == 'cue' else 'outcome_vectors'] = _fault_table(ns, 3 if side == 'cue' else 2,
+                                                                                'cd' if side == 'cue' else 'od')
+    return q
 
 
 def base_events(r, n, single):
@@ -92,10 +154,19 @@ def beta2_needed(events):
     return False
 
 
-def judge(t, want, tag, res, count=None):
-    """the property predicate on one observed call: a description of the violation, or None"""
+def judge(t, want, tag, res, count=None, model=None):
+    """the property predicate on one observed call: a description of the violation, or None.
+    `model`: the reply of conversion_faults when the expectation is the learner model's (then the class counts)"""
     got = res.get('outcome', res.get('err', '?'))
     prob = None
+    if model is not None and got not in ('Timeout', 'WorkerDied', 'HarnessError'):
+        conv = model.get('conversion')
+        if got != want:
+            return 'the learner model (%s) predicts %s for fault %r, the call: %s %s' % (
+                t['learner'], want, (t['fault'] or {}).get('kind', 'none'), got, res.get('msg', '')[:160])
+        if conv and conv['sim_raises'] and got == 'Returned':
+            return 'the conversion model (simulateF with the failing-job oracle of the file: jobs %r fail) raises, the call returned' % (
+                conv['failing_jobs'],)
     if want == 'Any':
         # not defined by the format: either outcome, but in bounded time (and nothing left behind, below)
         if got in ('Timeout', 'WorkerDied', 'HarnessError'):
@@ -178,6 +249,8 @@ def shrink(pool, t, tag, fails, rounds=8):
 
 
 def run(rep, pool, driver, tier):
+    import bridge
+    bridge.check_bridges(rep)       # driver copies = the definitions of the theorems; TR.v commutes
     r = rng('C05')
     quick = tier == 'quick'
     tasks = []   # (task, expected outcome or None=must return, tag)
@@ -193,14 +266,14 @@ def run(rep, pool, driver, tier):
                 # with one chunk the failing job is also the one that ends the submit loop)
                 return configuration(r, learner)
             # without a fault: with one job and with several, in several chunks and in one
-            tasks.append((dict(cfg(), op='fault_run', events=es, fault=None), None, 'no_fault'))
+            tasks.append((dict(cfg(), op='fault_run', events=es, fault=None), 'model', 'no_fault'))
             tasks.append((dict(cfg(), op='fault_run', events=es, n_jobs=r.choice([1, 4]), fault=None,
-                               **({'per_file': 10000000} if r.random() < 0.5 else {})), None, 'no_fault'))
+                               **({'per_file': 10000000} if r.random() < 0.5 else {})), 'model', 'no_fault'))
             for pos in (positions(n) if not quick else r.sample(positions(n), 2)):
                 # repeated cue under the default policy
                 es2 = [list(map(list, e)) for e in es]
                 es2[pos][0] = es2[pos][0] + [es2[pos][0][0]]
-                tasks.append((dict(cfg(), op='fault_run', events=es2, fault={'kind': 'dup_cue', 'pos': pos}), 'dup_cue', 'dup_cue'))
+                tasks.append((dict(cfg(), op='fault_run', events=es2, fault={'kind': 'dup_cue', 'pos': pos}), 'model', 'dup_cue'))
                 for shape in (OLD_SHAPES + NEW_SHAPES if not quick else [r.choice(OLD_SHAPES), r.choice(NEW_SHAPES)]):
                     tasks.append((dict(cfg(), op='fault_run', events=es, fault={'kind': 'bad_line', 'pos': pos, 'shape': shape}),
                                   'bad_line', 'bad_line'))
@@ -224,7 +297,18 @@ def run(rep, pool, driver, tier):
                     for pos in (positions(n) if not quick else [r.choice(positions(n))]):
                         name = es[pos][0][0] if side == 'cue' else es[pos][1][0]
                         tasks.append((dict(cfg(), op='fault_run', events=es, fault={'kind': 'no_vector', 'side': side, 'name': name}),
-                                      'no_vector', 'no_vector'))
+                                      'model', 'no_vector'))
+            # argument / input faults the learner model decides itself (stream model_faults)
+            if learner in ('ndl_threading', 'ndl_openmp'):
+                for kind, over in (('per_file_overflow', {'per_file': r.choice([2 ** 32, 2 ** 32 + 5, 2 ** 40])}),
+                                   ('per_file_one', {'per_file': 1}),
+                                   ('per_job_zero', {}),
+                                   ('per_job_overflow', {'per_job': r.choice([2 ** 32, 2 ** 33 + 1])})):
+                    tasks.append((dict(cfg(), op='fault_run', events=es, fault={'kind': kind}, **over), 'model', 'model_faults'))
+            # an event file with zero events (the wh learners get vector tables for the usual names)
+            tasks.append((dict(cfg(), op='fault_run', events=[], fault={'kind': 'zero_events'},
+                               **({'table_names': {'cue': ['a', 'b', 'c', 'd'], 'outcome': ['x', 'y', 'z']}}
+                                  if learner in _LEARNER_TABLES else {})), 'model', 'model_faults'))
             whichs = {'dict_ndl': ['alpha', 'beta', 'lambda'], 'ndl_threading': ['alpha', 'beta', 'lambda'],
                       'ndl_openmp': ['alpha', 'beta', 'lambda']}.get(learner, ['eta'])
             for which in whichs:
@@ -281,10 +365,15 @@ def run(rep, pool, driver, tier):
         if rv.random() < 0.25:
             t['verbose'] = True
     impls = pool.map([t for t, _, _ in tasks] + st_tasks)
-    all_cases = [(t, ('Any' if e == 'any' else EXPECT[e](t['learner']) if e else 'Returned'), tag) for t, e, tag in tasks] + \
+    # the learner model's verdict for the fault kinds it knows
+    rm = rng('C05/model')
+    mreps = iter(driver.ask([model_request(t, rm) for t, e, _ in tasks if e == 'model']))
+    models = [next(mreps) if e == 'model' else None for _, e, _ in tasks] + [None] * len(st_tasks)
+    all_cases = [(t, (m['learner'] if e == 'model' else 'Any' if e == 'any' else EXPECT[e](t['learner']) if e else 'Returned'), tag)
+                 for (t, e, tag), m in zip(tasks, models)] + \
                 [(t, 'Raised:IO' if m['raises'] else 'Returned', 'storage') for t, m in zip(st_tasks, st_models)]
     n_shrunk = 0
-    for (t, want, tag), res in zip(all_cases, impls):
+    for (t, want, tag), res, model in zip(all_cases, impls, models):
         got = res.get('outcome', res.get('err', '?'))
         rep.case({'learner': t['learner'], 'fault': t['fault'], 'events': t['events'], 'cfg': [t['n_jobs'], t['per_file']]},
                  nontrivial=True, stream=tag)
@@ -301,21 +390,84 @@ def run(rep, pool, driver, tier):
             rep.count('bad_line_shape:%s@%s' % (f['shape'], 'end' if f['pos'] >= len(t['events']) else 'first' if f['pos'] == 0 else 'inner'))
         if f.get('kind') == 'bad_param':
             rep.count('bad_param:%s=%s' % (f['which'], f['value']))
-        prob = judge(t, want, tag, res, rep.count)
+        if model is not None:
+            kind = (t['fault'] or {'kind': 'none'})['kind']
+            rep.count('model_verdict:%s:%s:%s' % (kind, t['learner'], model['learner']))
+            conv = model.get('conversion')
+            if conv is not None:
+                rep.count('conversion_model:%s:failing_jobs=%s:sim_raises=%s' % (
+                    kind, 'none' if not conv['failing_jobs'] else 'first' if conv['failing_jobs'][0] == 0 else 'later', conv['sim_raises']))
+        prob = judge(t, want, tag, res, rep.count, model)
         if prob:
             steps = 0
             if n_shrunk < 3:
                 # the first three violations are shrunk (events dropped, configuration simplified)
                 n_shrunk += 1
                 n_before = len(t['events'])
-                t, steps = shrink(pool, t, tag, lambda c, x: judge(c, want, tag, x) is not None,
+                def fails(c, x):
+                    if model is None:
+                        return judge(c, want, tag, x) is not None
+                    m = driver.ask([model_request(c)])[0]      # the model's verdict for the smaller task
+                    return judge(c, m['learner'], tag, x, model=m) is not None
+                t, steps = shrink(pool, t, tag, fails,
                                   rounds=3 if got in ('Timeout', 'WorkerDied') else 8)   # a hanging variant costs 15 s
                 if steps:
                     res = pool.map([t])[0]
-                    prob = judge(t, want, tag, res) or prob
+                    if model is not None:
+                        model = driver.ask([model_request(t)])[0]
+                        want = model['learner']
+                    prob = judge(t, want, tag, res, model=model) or prob
             rep.violation({'what': prob, 'input': t, 'observed': {k: res.get(k) for k in ('outcome', 'err', 'cls', 'msg', 'seconds', 'leftovers')},
-                           'expected': want, 'theorem_or_stream': 'C05 fault enumeration (%s) on %s' % (tag, t['learner']),
+                           'expected': want if model is None else {'learner_model': want, 'conversion_model': model.get('conversion')},
+                           'theorem_or_stream': ('C05 fault enumeration (%s) on %s' + ('' if model is None else
+                                                 ': verdict of the learner model (driver op conversion_faults)')) % (tag, t['learner']),
                            'python': snippet(t), 'shrink_steps': steps})
         elif tag != 'no_fault' and want != 'Returned':
             rep.sample({'learner': t['learner'], 'fault': t['fault'], 'outcome': got, 'cls': res.get('cls'), 'seconds': res.get('seconds')}, limit=8)
+    _worker_fault_traces(rep, pool, driver, r, quick)
     rep.extra['max_seconds_per_call'] = max(x.get('seconds', x.get('_seconds', 0)) for x in impls)
+
+
+def _worker_fault_traces(rep, pool, driver, r, quick):
+    """the work-queue protocol of method='threading' when kernel calls RAISE: observed history vs qRun/qRaises"""
+    tasks = []
+    for i in range(4 if quick else 30):
+        n_out = r.randint(1, 9)
+        outs = ['o%d' % k for k in range(n_out)]
+        es = [[r.sample(['a', 'b', 'c', 'd'], r.randint(1, 3)), r.sample(outs, r.randint(1, n_out))] for _ in range(r.randint(2, 5))]
+        es[0][1] = outs
+        faults = [None] + [{'kind': 'bad_param', 'which': w, 'value': v} for w in ('alpha', 'beta', 'lambda') for v in ('str', 'none')]
+        for f in ([None] + r.sample(faults[1:], 2) if quick else faults):
+            tasks.append(dict(op='trace_threading', fault_run=True, learner='ndl_threading', events=es, fault=f,
+                              n_jobs=r.choice([1, 2, 3, 5, 8]), per_job=r.randint(1, n_out + 1),
+                              per_file=r.choice([2, 10000000]), jitter_seed=r.randint(0, 10 ** 6)))
+    impls = pool.map(tasks)
+    replies = driver.ask([{'op': 'queue_trace', 'parts': len(res.get('parts', [])), 'threads': t['n_jobs'],
+                           'trace': [[a[0], a[1]] for a in res.get('trace', [])]} for t, res in zip(tasks, impls)])
+    for t, res, rp in zip(tasks, impls, replies):
+        got = res.get('outcome', res.get('err', '?'))
+        trace = res.get('trace', [])
+        n_fail = sum(1 for a in trace if a[0] == 'fail')
+        rep.case({'trace': trace, 'cfg': [t['n_jobs'], t['per_job']], 'fault': t['fault']}, nontrivial=len(trace) > 2,
+                 stream='worker_fault_trace')
+        rep.count('worker_fault_trace:%s:kernel_calls_failed=%s:%s' % ('fault' if t['fault'] else 'no_fault',
+                                                                       '0' if n_fail == 0 else '1' if n_fail == 1 else '2+', got))
+        prob = None
+        if got in ('Timeout', 'WorkerDied', 'HarnessError') or 'trace' not in res:
+            prob = 'traced run did not finish: %s %s' % (got, res.get('msg', ''))
+        elif not trace and got != 'Returned':
+            continue        # the call failed before the workers were started: nothing for the queue model to say
+        elif not rp['accepted']:
+            prob = 'work-queue history rejected by the Lean transition system at step %d: %r' % (rp['first_rejected'], trace[rp['first_rejected']])
+        elif not rp['final']:
+            prob = 'history accepted but not final (a worker neither left the loop nor failed)'
+        elif len(trace) > 2 * len(res.get('parts', [])) + t['n_jobs']:
+            prob = 'history longer than the bound 2*parts+threads'
+        elif rp['raises'] != (got != 'Returned'):
+            prob = 'qRaises of the final state is %s, the call: %s' % (rp['raises'], got)
+        elif t['fault'] and got == 'Returned':
+            prob = 'a run with an unusable %s returned weights' % t['fault']['which']
+        if prob:
+            rep.violation({'what': prob, 'input': t, 'observed': {'outcome': got, 'trace': trace, 'msg': res.get('msg')},
+                           'expected': {'accepted': True, 'final': True, 'raises': got != 'Returned'}, 'python': snippet(dict(t, op='fault_run')),
+                           'theorem_or_stream': 'C05 worker_fault_raises / worker_runs_bounded: observed work-queue history with failing kernel calls vs qRun / qRaises'})
